@@ -158,11 +158,10 @@ def plan(tier):
                             bounds={"K": "1 step from an arbitrary invariant state (all history lengths)",
                                     "alphabet": [s.tag for s in inductive.SHAPES]},
                             excludable=inductive.EXCLUDABLE))
-    if tier == "thorough":
-        add("k3-episode-arcs", "arcs,arcs,leave", kinds="rd")
-        add("k3-retract", "retract,retract,retract", kinds="r")
-        add("k4-episode-modes", "modes,enter,modes,leave")
-        add("k4-episode-retract", "retract,enter,retract,leave")
+    # (planned for the thorough tier but not completed end to end in the time available, hence outside the claim:
+    #  "arcs,arcs,leave", "retract,retract,retract", "modes,enter,modes,leave", "retract,enter,retract,leave";
+    #  the first of them alone ran for more than 25 minutes.  The thorough tier widens the region kinds of the
+    #  episode and arc templates instead -- that plan ran end to end.)
     return out
 
 
